@@ -3,6 +3,7 @@ package main
 import (
 	"encoding/json"
 	"fmt"
+	"math/big"
 	"os"
 	"sort"
 	"strconv"
@@ -124,7 +125,18 @@ func cqBool(b bool) string {
 
 func cqZ(n int64) string { return fmt.Sprintf("(%d)%%Z", n) }
 
-func cqZs(s string) string { return "(" + s + ")%Z" }
+func cqZs(s string) string {
+	// Coq's decimal numeral parser is quadratic; large values are emitted in hexadecimal
+	if len(s) > 18 {
+		if n, ok := new(big.Int).SetString(s, 10); ok {
+			if n.Sign() < 0 {
+				return fmt.Sprintf("(-0x%x)%%Z", new(big.Int).Neg(n))
+			}
+			return fmt.Sprintf("(0x%x)%%Z", n)
+		}
+	}
+	return "(" + s + ")%Z"
+}
 
 func cqN(n uint64) string { return fmt.Sprintf("%d%%N", n) }
 
